@@ -239,15 +239,20 @@ def float_time_case(c):
         gp = Grid(eta[:3], [None] * 3, rp, 'v_parallel_2d', comm, dtype=np.complex128)
         gp._f[:] = 1.0
         dc = DiagnosticCollector(comm, c['saveStep'], c['dt'], gf, gp)
-        for t in c['ts']:
+        slots = []
+        for k, t in enumerate(c['ts']):
+            gf._f[:] = float(k + 1)           # marks the column written by this call: nParticles = (k+1) * getN(1)
             dc.collect(gf, gp, t)
-        return [float(x) for x in dc.diagnostics[0]], [float(x) for x in dc.diagnostics[4]]
+            unit = dc.npart.getN(gf) / (k + 1)
+            hit = [i for i in range(c['saveStep']) if dc.diagnostics[4, i] == (k + 1) * unit and dc.diagnostics[0, i] == t]
+            slots.append(hit[0] if len(hit) == 1 else -1)
+        return slots, [float(x) for x in dc.diagnostics[0]]
     with warnings.catch_warnings():
         warnings.simplefilter('ignore')
         R = MPI.run(1, w, seed=1, timeout=60.0)
     if R.outcome != 'ok':
         return {'outcome': R.outcome, 'detail': R.detail[:300]}
-    return {'outcome': 'ok', 'times': R.results[0][0], 'npart': R.results[0][1]}
+    return {'outcome': 'ok', 'slots': R.results[0][0], 'times': R.results[0][1]}
 
 
 # ---------------------------------------------------------------------------------------------------
@@ -497,7 +502,7 @@ def compare(chk, c, res, answers, tags, fields):
     times = [c['t0'] + k * c['dt'] for k in range(c['nsteps'])]
     tab_or = [None] * c['saveStep']
     for k, t in enumerate(times):
-        tab_or[(t // c['dt']) % c['saveStep']] = k
+        tab_or[((2 * t + c['dt']) // (2 * c['dt'])) % c['saveStep']] = k      # nearest step, half up
     if tab != tab_or:
         v('model:table', 'model slot table %r, oracle %r' % (tab, tab_or), True)
     exp_cols = []      # per step: per rank column [t, l2phi, l2f, l1, n, min, max, ke] as Fractions
@@ -660,47 +665,85 @@ def accumulate(t0, dt, n):
     return ts
 
 
+def nearest_q(t, dt):
+    """floor(t/dt + 1/2) on the exact rationals (dg_slot_q)"""
+    return (Fraction(t) / Fraction(dt) + Fraction(1, 2)).__floor__()
+
+
+def float_time_cases(seed):
+    rng = random.Random(seed + 17)
+    out = []
+    # on-grid: step j+k at the time accumulated from t0 = j*dt; strict expectation: slot (j+k) mod saveStep
+    for dt in (2, 3, 1.0, 0.5, 0.25, 0.1, 0.3, 1.0 / 3.0, 0.7, 2.5e-3, 1e-1 * 3):
+        for j in (0, rng.randint(1, 9)):
+            save = rng.randint(2, 7)
+            n = rng.randint(save, 2 * save + 3)
+            out.append({'saveStep': save, 'dt': dt, 'ts': accumulate(j * dt, dt, n), 'first_step': j, 'grid': 'on'})
+    # off-grid times (model equality): (k + off) * dt with the offset well inside (-1/2, 1/2)
+    for dt in (2, 7, 0.5, 0.1, 1.0 / 3.0):
+        save = rng.randint(2, 6)
+        ks = [rng.randint(0, 20) for _ in range(6)]
+        offs = [rng.choice([-0.45, -0.3, -0.1, 0.2, 0.4, 0.45]) for _ in ks]
+        if isinstance(dt, int):
+            ts = [max(0, k * dt + int(round(o * dt))) for k, o in zip(ks, offs)]
+        else:
+            ts = [(k + o) * dt for k, o in zip(ks, offs)]
+        ts = [t for t in ts if t >= 0]
+        out.append({'saveStep': save, 'dt': dt, 'ts': ts, 'first_step': None, 'grid': 'off'})
+    return out
+
+
 def check_float_time(chk):
-    """collect() with float t, dt.  The k-th collect of a run starting at t = 0 belongs to step k and must go to
-    slot k mod saveStep.  The code computes floor of the exact quotient of the two doubles (c17_slot_q_of_step):
-    right whenever k*dt <= t < (k+1)*dt holds for the doubles (integers, dyadic dt), wrong otherwise."""
-    n = 0
-    cfgs = [{'saveStep': 3, 'dt': 2, 'ts': [0, 2, 4, 6]}, {'saveStep': 3, 'dt': 1.0, 'ts': [0.0, 1.0, 2.0]},
-            {'saveStep': 2, 'dt': 0.5, 'ts': accumulate(0.0, 0.5, 3)}, {'saveStep': 4, 'dt': 0.25, 'ts': accumulate(0.0, 0.25, 6)},
-            {'saveStep': 6, 'dt': 0.1, 'ts': accumulate(0.0, 0.1, 6)}, {'saveStep': 3, 'dt': 0.1, 'ts': accumulate(0.0, 0.1, 6)}]
-    for cfg in cfgs:
-        r = implrun.run_cases('props.c17', 'float_time_case', [cfg], tmo=90.0)[0]
-        n += 1
+    """collect() with integer and float t, dt.  The code takes the nearest step int(t/dt + 0.5).  Strict expectation: the
+    time accumulated from k steps starting at step j lands in slot (j+k) mod saveStep, for dyadic and non-dyadic dt;
+    for off-grid times the exact rational model dg_slot_q (= dg_slot on integers) and its binary64 evaluation dg_slot_f
+    (PrimFloat, inside Coq) must give the implementation's slot."""
+    cfgs = float_time_cases(chk.seed)
+    res = implrun.run_cases('props.c17', 'float_time_case', cfgs, tmo=90.0, chunk=2)
+    terms, where = [], []
+    for ci, (cfg, r) in enumerate(zip(cfgs, res)):
         isf = any(isinstance(x, float) for x in [cfg['dt']] + cfg['ts'])
-        dtq = Fraction(cfg['dt'])
-        hyp = all(k * dtq <= Fraction(t) < (k + 1) * dtq for k, t in enumerate(cfg['ts']))
-        chk.count(('float-time', json.dumps(cfg)), stratum='collect-time/' + ('float' if isf else 'int') + ('/exact-steps' if hyp else '/rounded-steps'),
-                  sample=cfg)
-        want = [0.0] * cfg['saveStep']
-        qmodel = [0.0] * cfg['saveStep']
-        for k, t in enumerate(cfg['ts']):
-            want[k % cfg['saveStep']] = float(t)
-            qmodel[(Fraction(t) / dtq).__floor__() % cfg['saveStep']] = float(t)
-        if hyp and qmodel != want:
-            raise core.BrokenCheck('c17_slot_q_of_step contradicted by %r' % (cfg,))
+        s_, dt = cfg['saveStep'], cfg['dt']
+        qm = [nearest_q(t, dt) % s_ for t in cfg['ts']]
+        old = [(Fraction(t) / Fraction(dt)).__floor__() % s_ for t in cfg['ts']]
+        if cfg['grid'] == 'on':
+            want = [(cfg['first_step'] + k) % s_ for k in range(len(cfg['ts']))]
+            hyp = all(abs(Fraction(t) - (cfg['first_step'] + k) * Fraction(dt)) < Fraction(dt) / 2 for k, t in enumerate(cfg['ts']))
+            if hyp and qm != want:
+                raise core.BrokenCheck('c17_slot_q_of_step contradicted by %r' % (cfg,))
+            if not hyp:
+                raise core.BrokenCheck('generator: accumulated time further than dt/2 from its step: %r' % (cfg,))
+        else:
+            want = qm
+        chk.count(('float-time', json.dumps(cfg)), stratum='collect-time/%s/%s-grid' % ('float' if isf else 'int', cfg['grid']), sample=cfg)
         if not isinstance(r, dict):
             r = {'outcome': 'exception', 'detail': repr(r)}
-        if r.get('outcome') != 'ok' or r.get('times') != want:
-            if not isf:
-                key = 'collector.collect:slot'
-            elif r.get('outcome') != 'ok':
-                key = 'collector.collect:float-time'
-            elif not hyp and r.get('times') == qmodel:
+        if r.get('outcome') != 'ok' or r.get('slots') != want:
+            if r.get('outcome') != 'ok':
+                key = 'collector.collect:float-time' if isf else 'collector.collect:slot'
+            elif r.get('slots') == old and isf:
                 key = 'collector.collect:float-floor-division'
             else:
                 key = 'collector.collect:slot'
-            chk.violation(key, 'DiagnosticCollector.collect with %s t/dt (saveStep %d, dt %r, times of steps 0.. %r): slots hold %s; '
-                          'step k belongs to slot k mod saveStep: %r%s' % ('float' if isf else 'int', cfg['saveStep'], cfg['dt'], cfg['ts'],
-                                                                        (r.get('detail') or r.get('times')), want,
-                                                                        '' if hyp else ' (t // dt on the doubles is not the step number: '
-                                                                        'k*dt <= t < (k+1)*dt fails in exact arithmetic)'),
-                          {'kind': 'float-time', 'case': cfg, 'observed': r})
-    return n
+            chk.violation(key, 'DiagnosticCollector.collect with %s t/dt (saveStep %d, dt %r, %s times %r): the calls wrote slots %s; '
+                          'expected %r (%s)' % ('float' if isf else 'int', s_, dt, 'accumulated' if cfg['grid'] == 'on' else 'off-grid', cfg['ts'],
+                                                (r.get('detail') or r.get('slots')), want,
+                                                'step j+k belongs to slot (j+k) mod saveStep' if cfg['grid'] == 'on'
+                                                else 'nearest step, exact rational model dg_slot_q'),
+                          {'kind': 'float-time', 'case': cfg, 'observed': r, 'expected': want})
+        elif isf:
+            for k, t in enumerate(cfg['ts']):
+                terms.append('dg_slot_f %s%%float %s%%float %d' % (float(t).hex(), float(dt).hex(), s_))
+                where.append((ci, k))
+    if terms:
+        vals = core.coq_eval(terms, 'From Coq Require Import ZArith Floats. From PGV Require Import DiagnosticsSlotQ.', tag='c17f')
+        for v_, (ci, k) in zip(vals, where):
+            got = int(re.findall(r'-?\d+', v_.replace('%Z', ''))[0])
+            if got != res[ci]['slots'][k]:
+                chk.violation('model:slot-binary64', 'dg_slot_f (PrimFloat) gives slot %d, the implementation %d for t=%r dt=%r saveStep %d'
+                              % (got, res[ci]['slots'][k], cfgs[ci]['ts'][k], cfgs[ci]['dt'], cfgs[ci]['saveStep']),
+                              {'kind': 'float-time', 'case': cfgs[ci]}, no_input=True)
+    return len(cfgs), len(terms)
 
 
 def evaluate(chk, cases, record=True):
@@ -737,9 +780,9 @@ def evaluate(chk, cases, record=True):
 def run():
     chk = core.Check('C17', 'proof')
     proof = core.proof_stage('C17')
+    nft, nfcoq = check_float_time(chk)       # first: its replays must not be crowded out by the cap on reported violations
     cases = gen_cases(chk)
     nbad, nlines, answers, spans, allf = evaluate(chk, cases)
-    nft = check_float_time(chk)
     # cross-check of the extraction inside Coq on the smallest configurations
     order = sorted(range(len(cases)), key=lambda i: int(np.prod(cases[i]['N'])))
     samp = order[:(4 if chk.tier == 'quick' else 12)]
@@ -769,11 +812,12 @@ def run():
              'small-integer fields (mixed sign, all positive, all negative), f=1, uniform grids, a stratum with ranks owning no radial point; per configuration: l2/l1/nParticles/'
              'KineticEnergy in the 3 layouts of f, l2 in the 4 layouts of phi (2 of them replicated), 4 getMin/getMax queries, a collector run '
              'of 1..5 steps with saveStep 1..4 (with and without wrap-around); non-trivial = more than one rank; distinct = distinct configuration',
-        extra={'model_requests': nlines, 'coq_vm_compute_crosschecked': len(terms), 'float_time_cases': nft,
+        extra={'model_requests': nlines, 'coq_vm_compute_crosschecked': len(terms), 'float_time_cases': nft, 'binary64_slots_evaluated_in_coq': nfcoq,
                'process_grids': [list(g) for g in GRIDS]},
         uncovered=['float rounding / re-association of the real MPI reduction (model and theorems are in exact arithmetic)',
-                   'collect() with float t, dt: modelled over exact rationals (c17_slot_q_of_step needs k*dt <= t < (k+1)*dt for the doubles); '
-                   'that Python\'s float // is the floor of the exact quotient is assumed (checked on the generated cases)',
+                   'collect() with float t, dt: proved over exact rationals (c17_slot_q_of_step: |t - k dt| < dt/2); the binary64 evaluation '
+                   'of t/dt + 0.5 (dg_slot_f) is compared with the implementation on the generated times, its agreement with the rational model '
+                   'is not proved (it can differ only when t/dt is within one rounding of a half-integer)',
                    'the pointwise model of _factor1 (orientation of the outer product written through .flat) and the transcription of the '
                    'classes into Diagnostics.v are exercised by the differential tie and the oracle, not proved about the Python text',
                    'sqrt of the reduced l2 values (compared as the same IEEE operation)'])
@@ -786,12 +830,14 @@ def replay(path):
     chk = core.Check('C17', 'proof')
     chk.known = []
     if rp.get('kind') == 'float-time':
-        r = implrun.run_cases('props.c17', 'float_time_case', [rp['case']], tmo=90.0)[0]
-        print('case', rp['case'], '->', r)
-        want = [0.0] * rp['case']['saveStep']
-        for k, t in enumerate(rp['case']['ts']):
-            want[k % rp['case']['saveStep']] = float(t)
-        return 0 if (isinstance(r, dict) and r.get('times') == want) else 1
+        cfg = rp['case']
+        r = implrun.run_cases('props.c17', 'float_time_case', [cfg], tmo=90.0)[0]
+        if cfg.get('grid') == 'on':
+            want = [(cfg['first_step'] + k) % cfg['saveStep'] for k in range(len(cfg['ts']))]
+        else:
+            want = [nearest_q(t, cfg['dt']) % cfg['saveStep'] for t in cfg['ts']]
+        print('case', cfg, '\n implementation ->', r, '\n expected slots ', want)
+        return 0 if (isinstance(r, dict) and r.get('slots') == want) else 1
     c = rp['case']
     nbad, _, _, _, _ = evaluate(chk, [c], record=False)
     print('configuration', json.dumps({k: c[k] for k in ('N', 'grid', 'eta_int', 'units', 'kind')}))
